@@ -39,7 +39,9 @@ structure World where
   nDb      : Nat := 1
   dbKinds  : List (Nat × Kind) := []
   lastOpDb : Option Nat := none           -- database touched by the last state-changing op
-  dbAcls   : List (Nat × Acl) := []     -- source peer's entry hashes at sync time
+  dbAcls   : List (Nat × Acl) := []
+  /-- C15: after `restart p n` — (store key, n, full listing persisted before the restart) -/
+  limited  : List (Nat × Int × List Nat) := []     -- source peer's entry hashes at sync time
   lineNo   : Nat := 0
   nFail    : Nat := 0
   nObs     : Nat := 0
@@ -207,6 +209,32 @@ def World.onObs1 (w : World) (toks : List String) : World :=
   let ilocal := cacheField (arg toks "local")
   let iremote := cacheField (arg toks "remote")
   let prev := w.obsOf p
+  let lim : Option (Nat × Int × List Nat) := w.limited.find? (fun x => x.1 == w.key p)
+  -- C15: what a load with a limit must show
+  let w := match lim with
+    | none => w
+    | some (_, n, full) =>
+      let total := full.length
+      if n ≤ 0 then
+        if iv != full then w.fail "C15" "all" s!"peer {p}: Load({n}) lists {showNums iv}, the persisted log is {showNums full}" else w
+      else
+        let want := min n.toNat total
+        let w := if iv.length != want then w.fail "C15" "count" s!"peer {p}: Load({n}) lists {iv.length} entries ({showNums iv}), expected {want} of {showNums full}" else w
+        let w := if !isSubseq iv full then w.fail "C15" "order" s!"peer {p}: Load({n}) lists {showNums iv}, not in the order of {showNums full}" else w
+        let w := match full.getLast? with
+          | some newest => if want > 0 && !iv.contains newest then w.fail "C15" "newest" s!"peer {p}: Load({n}) lists {showNums iv} without the newest entry e{newest}" else w
+          | none => w
+        let single := ((w.entriesOf full).map (fun (e : Entry) => e.cid)).eraseDups.length ≤ 1
+        if single && iv != full.drop (total - want) then
+          w.fail "C15" "recent" s!"peer {p}: single-writer log, Load({n}) lists {showNums iv}, the {want} most recent are {showNums (full.drop (total - want))}" else w
+  -- a limited load of a multi-head log may keep different older entries than the model's unbounded fetch:
+  -- the model then continues from the implementation's listing
+  let partialLoad := match lim with | some (_, n, full) => n > 0 && n.toNat < full.length | none => false
+  let (w, s) := if partialLoad then
+      let L : Log := logOfEntries (w.curDb + 1) (w.entriesOf iv)
+      let s' := { s with log := { L with heads := w.entriesOf ih }, idx := parseKVs idxS, status := { progress := ist.1, max := ist.2 } }
+      (w.setStore p s', s')
+    else (w, s)
   let busy := w.inflight.contains (w.key p)
   let (w, s) := if w.resync.contains (w.key p) || busy then
       let s' := { s with status := { progress := ist.1, max := ist.2 } }
@@ -392,7 +420,12 @@ def World.onRestarted (w : World) (toks : List String) : World :=
   let amount : Int := match w.pending.getD 2 "" with | "" => -1 | a => parseInt a
   let w := if arg toks "identity" != "true" then w.fail "C05" "identity" s!"peer {p} has a different identity after restart" else w
   let s := (w.store p).reopened
-  let w := { w with lastObs := w.lastObs.filter (·.1 != w.key p) }
+  -- the whole persisted log: everything reachable from the cached heads
+  let full := match s.load w.acl w.fetchAll (-1) with
+    | .ok sf => (values sf.log).map (·.hash)
+    | .error _ => []
+  let w := { w with lastObs := w.lastObs.filter (·.1 != w.key p),
+                    limited := (w.key p, amount, full) :: w.limited.filter (·.1 != w.key p) }
   match s.load w.acl w.fetchAll amount with
   | .ok s' =>
     let w := { w.setStore p s' with resync := w.key p :: w.resync }
